@@ -38,7 +38,7 @@ def run(ctx):
         for s_ in scen:
             f.write(json.dumps(s_) + "\n")
     # 3. environment names derived by the Snake spec (not by the code under test)
-    paths = [[t] for t in TOP] + [[s_, t] for s_ in STRUCTS for t in TOP]
+    paths = [[t] for t in TOP] + [[s_, t] for s_ in STRUCTS for t in TOP] + [[o, s_, t] for o in STRUCTS for s_ in STRUCTS for t in TOP]
     pfile = "".join(json.dumps([list(x.encode()) for x in p]) + "\n" for p in paths)
     sn = ctx.tlc("config", "Snake", "INIT Init\nNEXT Next\nINVARIANT Derive\nCHECK_DEADLOCK FALSE\n", workers=1, timeout=300,
                  files={"paths.ndjson": pfile}, tag="Snake names")
@@ -81,7 +81,7 @@ def run(ctx):
                                     if sum(1 for k in ("cli", "env", "file", "b64", "def") for f in s_["final"] if s_["scen"][k][f] != "absent") >= 2}),
         "rule": "every scenario of the TLC model (per field: each of tag default / cli / env / JSON file / JSON B64 absent, empty-or-zero "
                 "or a value; carriers present or not; decoy CFG_CONFIG always set) replayed on run-time built struct types covering "
-                "all 9 kinds, nested/top-level, both tag syntaxes, cli spellings; non-trivial = at least two sources mention a field",
+                "all 9 kinds, top-level / nested one and two levels deep, both tag syntaxes, cli spellings; non-trivial = at least two sources mention a field",
         "exhaustive": True, "scenarios": len(scen), "kinds": stats["kinds"], "mismatches": len(mm),
         "env_names_from_spec": len(names),
     })
